@@ -38,6 +38,11 @@ def implies(a, b):
     return (not a) or b
 
 
+def same(a, b):
+    """(clause helper) the two expressions denote the very same value (term equality in the logic)"""
+    return a is b or a == b
+
+
 def table_key(fn):
     """(clause helper) the key under which a function drawn from a dispatch table is registered"""
     return getattr(fn, "__table_key__", None)
@@ -68,6 +73,12 @@ class Contract:
         self.raises = []
         self.loops = {}
         self.loop_ghosts = {}      # loop key -> {ghost name -> (init expr, step expr)}
+        self.entry_asserts = []
+        self.yield_view = None     # generators yielding objects: lambda obj: tuple of its fields recorded in `yielded`
+        self.opaque_here = []      # spec functions not to unfold in this contract's obligations
+        self.unfold_here = []      # lazily unfolded spec functions (verifier.LAZY_SPECS) to unfold here
+        self.loop_hints = {}       # loop key -> [lemma-instance lambdas] assumed at the head of the body
+        self.exit_hints = {}       # loop key -> [lemma-instance lambdas] assumed after the loop
         self.call_ghosts = {}
         self.call_behaviors = {}
         self.returns = "py"
@@ -177,6 +188,10 @@ def load_file(path, modname):
                 c.decreases = _lam(val)
             elif nm == "hints":
                 c.hints = [_lam(e) for e in val.elts]
+            elif nm == "entry_asserts":
+                # ghost assertions at function entry: each is an obligation (proved from the precondition)
+                # and then available on every path -- keeps later queries from re-deriving it
+                c.entry_asserts = [_lam(e) for e in val.elts]
             elif nm == "requires":
                 c.requires = _lam(val)
             elif nm == "ensures":
@@ -201,14 +216,24 @@ def load_file(path, modname):
                 c.case_split = _lit(val)
             elif nm == "bv_locals":
                 c.bv_locals = _lit(val)
+            elif nm == "yield_view":
+                c.yield_view = _lam(val)
             elif nm == "uses_locals":
                 c.uses_locals = _lit(val)
+            elif nm == "opaque_here":
+                c.opaque_here = _lit(val)
+            elif nm == "unfold_here":
+                c.unfold_here = _lit(val)
             elif nm == "allocs":
                 c.allocs = _dict_of(val, _lit)
             elif nm == "fresh_result":
                 c.fresh_result = _lit(val)
             elif nm == "loops":
                 c.loops = _dict_of(val, _lam)
+            elif nm in ("loop_hints", "exit_hints"):
+                # lemma instances assumed at the head of an arbitrary iteration (after the invariant) /
+                # right after the loop; each lemma is proved separately in the same run
+                setattr(c, nm, _dict_of(val, lambda v: [_lam(e) for e in v.elts]))
             elif nm == "loop_ghosts":
                 def pair(v):
                     if not (isinstance(v, ast.Tuple) and len(v.elts) == 2):
